@@ -187,6 +187,15 @@ def handle (j : J) : J :=
                 match Val.query v pv.1 with
                 | .ok r => if r == pv.2 then J.str "same" else J.str "diff"
                 | .error e => J.str e.name)),
+            ("lookup_str", .arr (pre.map fun pv =>
+                -- the printed path, parsed again and looked up from the root
+                match parse dc (pathStr pv.1) with
+                | .error e => J.str e.name
+                | .ok p' =>
+                  match Val.query v p' with
+                  | .ok r => if r == pv.2 then J.str "same" else J.str "diff"
+                  | .error e => J.str e.name)),
+            ("strs", .arr (pre.map fun pv => strToJ (pathStr pv.1))),
             ("leaves", valToJ (.dict (Val.queryLeaves v))),
             ("flat_t", valToJ flatT),
             ("flat_f", valToJ flatF),
